@@ -1,3 +1,132 @@
-import CGV.Model.ReadCG
+/-
+  C14 — annotations mean the same however written and reach the graphs unchanged.
+
+  Model: `parseAnno sig = finishAnno sig ∘ bindSig sig ∘ collect` (CGV.Model.Dialect) with the two
+  signatures generated from dialects.py on every run (`Gen.baseDialect`, `Gen.fragDialect`).
+  The theorems quantify over ALL value texts; the signatures are the finite generated data, so
+  positional/keyword equivalence is proved signature by signature (and re-proved whenever the
+  generated signature changes).
+-/
+import CGV.Lemmas.Anno
+import CGV.Lemmas.Inst
+import CGV.Lemmas.Sort
 namespace CGV.C14
+open CGV Gen
+
+abbrev S (x : String) : Str := x.toList
+
+/-! ### positional ≡ keyword -/
+
+/-- base-graph dialect: `[#name;q;w]`, `[#name;q;w=…]`, `[#name;q=…;w=…]`, `[#name;w=…;q=…]` bind
+    identically, for all value texts -/
+theorem C14_pos_kw_base (name q w : Str) :
+    bindSig baseDialect [name, q, w] [] = bindSig baseDialect [name, q] [(S "w", w)] ∧
+    bindSig baseDialect [name, q, w] [] = bindSig baseDialect [name] [(S "q", q), (S "w", w)] ∧
+    bindSig baseDialect [name, q, w] [] = bindSig baseDialect [name] [(S "w", w), (S "q", q)] := by
+  refine ⟨?_, ?_, ?_⟩ <;> rfl
+
+theorem C14_pos_kw_base_q (name q : Str) :
+    bindSig baseDialect [name, q] [] = bindSig baseDialect [name] [(S "q", q)] := rfl
+
+/-- atom dialect (`w ; x`) -/
+theorem C14_pos_kw_frag (w x : Str) :
+    bindSig fragDialect [w, x] [] = bindSig fragDialect [w] [(S "x", x)] ∧
+    bindSig fragDialect [w, x] [] = bindSig fragDialect [] [(S "w", w), (S "x", x)] ∧
+    bindSig fragDialect [w, x] [] = bindSig fragDialect [] [(S "x", x), (S "w", w)] := by
+  refine ⟨?_, ?_, ?_⟩ <;> rfl
+
+/-! ### keyword order -/
+
+/-- keyword entries with pairwise distinct keys may be written in any order (and interleaved
+    anywhere with the positional ones — `collect` separates the two kinds): the same reserved
+    parameters are bound to the same values, the same free keywords are kept -/
+theorem C14_kw_perm (sig : DialectSig) (args : List Str) (kw kw' : List (Str × Str)) (h : kw.Perm kw')
+    (hn : (kw.map (·.1)).Nodup) (b : List (AnnoParam × Str)) (ex : List (Str × Str))
+    (hb : bindSig sig args kw = .ok (b, ex)) :
+    ∃ ex', bindSig sig args kw' = .ok (b, ex') ∧ ex.Perm ex' :=
+  (bindSig_perm sig args h hn).2 b ex hb
+
+/-- … and an error is the same error -/
+theorem C14_kw_perm_error (sig : DialectSig) (args : List Str) (kw kw' : List (Str × Str)) (h : kw.Perm kw')
+    (hn : (kw.map (·.1)).Nodup) (e : PyErr) (hb : bindSig sig args kw = .error e) :
+    bindSig sig args kw' = .error e :=
+  (bindSig_perm sig args h hn).1 e hb
+
+/-! ### defaults, numbers, verbatim texts -/
+
+/-- a plain node `[#name]` gets the documented defaults: charge 0, weight 1 -/
+theorem C14_defaults_base (name : Str) (h1 : ';' ∉ name) (h2 : '=' ∉ name) (hne : name ≠ []) :
+    parseBase name = .ok [(S "fragname", .str name), (S "weight", .num 1 0), (S "charge", .num 0 0)] := by
+  have hc : collect name = .ok ([name], []) := by
+    unfold collect
+    have : name.isEmpty = false := by cases name <;> simp_all
+    simp only [this, Bool.false_eq_true, if_false, annotationSep]
+    rw [splitOn_no_sep ';' name h1]
+    have hcount : List.count '=' name = 0 := List.count_eq_zero.mpr h2
+    simp [List.foldlM, classifyEntry, hcount, annotationAssign, splitOn_no_sep '=' name h2, bind, Except.bind, pure, Except.pure]
+  simp only [parseBase, parseAnno, hc, bind, Except.bind]
+  rfl
+
+/-- a plain atom gets weight 1 and no chirality -/
+theorem C14_defaults_frag : parseFrag [] = .ok [(S "weight", .num 1 0)] := by decide +kernel
+
+/-- reserved numeric keys hold numbers, everything else the text verbatim -/
+theorem C14_cast (p : AnnoParam) (v : Str) :
+    (p.type = .str → castVal p v = .ok (.str v)) ∧
+    (p.type = .float → ∀ a, castVal p v = .ok a → ∃ m e, a = .num m e) := by
+  constructor
+  · intro h; simp [castVal, h]
+  · intro h a ha
+    simp only [castVal, h] at ha
+    cases hp : parseFloat v with
+    | error e => simp [hp, bind, Except.bind] at ha
+    | ok r =>
+      cases r with
+      | none => simp [hp, bind, Except.bind, throw, throwThe, MonadExceptOf.throw] at ha
+      | some me => simp [hp, bind, Except.bind, pure, Except.pure] at ha; exact ⟨me.1, me.2, ha.symm⟩
+
+/-- numeric spellings denote the numbers they spell (mantissa × 10^exponent) -/
+theorem C14_numeric_spellings :
+    parseFloat (S "+1") = .ok (some (1, 0)) ∧ parseFloat (S "-0.25") = .ok (some (-25, -2)) ∧
+    parseFloat (S "1e-1") = .ok (some (1, -1)) ∧ parseFloat (S ".5") = .ok (some (5, -1)) ∧
+    parseFloat (S "5.") = .ok (some (5, 0)) ∧ parseFloat (S "abc") = .error .unsupported ∧
+    parseFloat (S "1x") = .ok none ∧ parseFloat (S "") = .ok none := by decide +kernel
+
+/-! ### propagation -/
+
+/-- annotations on a fragment atom (weight, chirality, free keys live in `extra`; charge, element, …
+    in their fields) appear unchanged on every copy of that atom: instantiation changes only key,
+    membership and mapping … -/
+theorem C14_atom_propagate (mol : Mol) (k : Key) (name : Str) (tmpl : Mol) (hnd : tmpl.keys.Nodup) (a : Atom) (i : Nat)
+    (h : (a, i) ∈ tmpl.atoms.zipIdx) :
+    ∃ c ∈ (instantiate mol k name tmpl).1.atoms, c.extra = a.extra ∧ c.charge = a.charge ∧ c.element = a.element ∧
+      c.atomname = a.atomname ∧ c.mapping = [(name, a.key)] := by
+  refine ⟨{ a with key := mol.nextKey + i, fragid := [k], mapping := [(name, a.key)] }, ?_, rfl, rfl, rfl, rfl, rfl⟩
+  rw [show (instantiate mol k name tmpl).1.atoms = mol.atoms ++ tmpl.atoms.zipIdx.map fun (p : Atom × Nat) =>
+      { p.1 with key := mol.nextKey + p.2, fragid := [k], mapping := [(name, p.1.key)] } from by
+    unfold instantiate
+    simp only [foldl_addEdge_atoms]
+    congr 1
+    have : tmpl.atoms = tmpl.atoms.zipIdx.map (·.1) := by simp
+    conv => lhs; rw [this, List.map_map]
+    apply List.map_congr_left
+    intro p hp
+    obtain ⟨a', i'⟩ := p
+    have := lookup_corr tmpl.atoms mol.nextKey 0 hnd a' i' hp
+    simp [Function.comp, this]]
+  exact List.mem_append_right _ (List.mem_map.mpr ⟨(a, i), h, rfl⟩)
+
+/-- … and the final renumbering keeps them too -/
+theorem C14_sort_keeps (mol : Mol) :
+    (sortNodes mol).1.atoms.map (fun a => (a.extra, a.charge)) = mol.atoms.map (fun a => (a.extra, a.charge)) := by
+  simp [sortNodes, List.map_map, Function.comp_def]
+
+/-! worked instances (kernel evaluation of the model on documented examples) -/
+example : parseBase (S "PMA;+1") = parseBase (S "PMA;q=+1") := by decide +kernel
+example : parseBase (S "A;0;0.5") = parseBase (S "A;w=0.5") := by decide +kernel
+example : parseBase (S "A;w=0.5;1") = parseBase (S "A;1;w=0.5") := by decide +kernel
+example : parseBase (S "A;q=1;mass=72") =
+    .ok [(S "mass", .str (S "72")), (S "fragname", .str (S "A")), (S "weight", .num 1 0), (S "charge", .num 1 0)] := by
+  decide +kernel
+
 end CGV.C14
